@@ -258,6 +258,29 @@ func c03(c *Ctx) {
 				}
 			}
 		}
+		if final != nil {
+			// every integer argument of the real pass derives from the probing pass's consumed length
+			okSz, nInt := true, 0
+			for _, a := range final.Call.Args {
+				if !isIntegerType(a.Type()) || isUintptr(a.Type()) {
+					continue
+				}
+				nInt++
+				fromProbe := false
+				for _, at := range origins(a) {
+					if ex, ok := at.V.(*ssa.Extract); ok && ex.Index == 1 {
+						if cl, ok := ex.Tuple.(*ssa.Call); ok && staticCallee(cl.Common()) == loopFn && cl != final {
+							fromProbe = true
+						}
+					}
+				}
+				if !fromProbe {
+					okSz = false
+				}
+			}
+			r.Check(okSz && nInt >= 1, "C03.R3", "real relocation pass bounded by the relocated prefix in "+shortName(fx), p.Pos(posOf(final)), "both size arguments = consumed length of the probing pass",
+				"the real relocation pass is told a block size other than the number of bytes actually relocated: a branch from the copied prologue into the un-copied rest of the function is treated as internal and copied verbatim, so in the placeholder it jumps into stale bytes")
+		}
 		r.Check(okChk, "C03.R3", "branch-back check dominates relocation in "+shortName(fx), p.Pos(fx.Pos()), "relocated bytes are produced only after the check returned nil",
 			"the relocated prologue is produced without a passed 'no branch back into the overwritten prefix' check: a loop back-edge into the first bytes would jump into the middle of the entry jump")
 		// the builder passes the jump length as the minimum to relocate, and the loop's early return honours it
